@@ -163,9 +163,9 @@ func newDialWorld(kind string, nodeWrap bool) (*dialWorld, error) {
 	const day = 24 * time.Hour
 	switch kind {
 	case "normal", "":
-		w.s = world.MustServer(world.ServerCfg{Backend: world.Inmem})
+		w.s = world.MustServer(world.ServerCfg{Backend: world.Inmem, StorageWrap: nodeWrap})
 	case "both":
-		w.s = world.MustServer(world.ServerCfg{Backend: world.Inmem, NoRoots: true})
+		w.s = world.MustServer(world.ServerCfg{Backend: world.Inmem, NoRoots: true, StorageWrap: nodeWrap})
 		craftRoots(w.s, -5*day, 5*day, -time.Hour, 12*day)
 	case "expired":
 		w.s = world.MustServer(world.ServerCfg{Backend: world.Inmem, NoRoots: true})
@@ -395,10 +395,10 @@ func runHistory(c *engine.Ctx, dc dialCase) {
 	const day = 24 * time.Hour
 	var s *world.Server
 	if dc.World == "both" {
-		s = world.MustServer(world.ServerCfg{Backend: world.Inmem, NoRoots: true})
+		s = world.MustServer(world.ServerCfg{Backend: world.Inmem, NoRoots: true, StorageWrap: dc.NodeWrap})
 		craftRoots(s, -5*day, 5*day, -time.Hour, 12*day)
 	} else {
-		s = world.MustServer(world.ServerCfg{Backend: world.Inmem})
+		s = world.MustServer(world.ServerCfg{Backend: world.Inmem, StorageWrap: dc.NodeWrap})
 	}
 	defer s.Close()
 	lw, err := world.NewLW(s, world.LWCfg{})
